@@ -578,7 +578,9 @@ def apply_edit(font, name, a):
                     gl.coordinates.translate((37 + k % 50, 11 + k % 7))
         return font
     if name == "deltable":
-        cand = [t for t in _tags(font) if t not in ("head", "maxp", "hhea", "hmtx", "glyf", "loca", "CFF ", "CFF2", "post", "cmap", "name", "OS/2", "fvar", "gvar", "vhea", "vmtx")]
+        cand = [t for t in _tags(font) if t not in ("head", "maxp", "hhea", "hmtx", "glyf", "loca", "CFF ", "CFF2", "post", "cmap", "name", "OS/2", "fvar", "gvar", "vhea", "vmtx", "Glat", "Gloc", "CBDT", "CBLC", "EBDT", "EBLC", "bdat", "bloc")]
+        # (never one half of a data/location pair: the location table is filled in by its data table's compile,
+        # so "save; delete the data table; save" legitimately differs from "delete; save" - soak seed 8)
         t = _sel(cand, k)
         if t is not None:
             del font[t]
